@@ -11,7 +11,7 @@ from .. import env
 
 ID = "C15"
 LEVEL = "exploration"
-BUDGET = {"quick": 320, "thorough": 12000}
+BUDGET = {"quick": 320, "thorough": 18000}
 SHARDS = {"quick": 8, "thorough": 16}
 RULE = (
     "(1) exhaustive grid, run in full on every invocation: sample class (3) x source namespace (3) x target namespace (3) x "
